@@ -144,14 +144,19 @@ def ob_duplicates(n, maxlen, timeout):
     return Ob("duplicate-names-n%d-len%d" % (n, maxlen), S(*names), body, pre, timeout=timeout, funcs=FUNCS[3:4], bounds="%d tiers, names <= %d chars over {a,_,2} (so that generated names can collide with existing ones)" % (n, maxlen))
 
 
-LABS = ["x", 'say "hi"', "two\nlines", "", "é 中", '""', "a = 1", "tab\there"]
-NUMS = [("0", "1.5"), ("-0", "2"), ("0.0", "1e1"), ("5e-05", "1.25E+2"), ("0", "20000000000000000")]
+# labels: also characters that str.splitlines() treats as line ends although the format does not
+LABS = ["x", 'say "hi"', "two\nlines", "", "é 中", '""', "a = 1", "tab\there", "first\u2028second", "page\x0cbreak", "a\x85b\x1cc\x0bd\u2029e"]
+# (xmin, xmax) or (xmin, boundary, xmax): also intervals that are short relative to their position
+NUMS = [("0", "1.5"), ("-0", "2"), ("0.0", "1e1"), ("5e-05", "1.25E+2"), ("0", "20000000000000000"), ("1e15", "1000000000000000.5", "1000000000000001"), ("100", "100.0000000000005", "100.000000000001")]
 
 
 def _spec_tg(i, j, dupnames=False):
-    lo, hi = NUMS[j]
+    if len(NUMS[j]) == 3:
+        lo, mid, hi = NUMS[j]
+    else:
+        lo, hi = NUMS[j]
+        mid = "0.5" if float(hi) > 1 else "0.00001"
     lab = LABS[i]
-    mid = "0.5" if float(hi) > 1 else "0.00001"
     return {"xmin": lo, "xmax": hi, "tiers": [
         {"class": "IntervalTier", "name": "words", "xmin": lo, "xmax": hi, "entries": [(lo, mid, lab), (mid, hi, "")]},
         # tiers need not span their container: one starts later, one ends earlier
